@@ -524,6 +524,22 @@ impl Function {
         )
     }
 
+    /// Check if the function takes no arguments, i.e. it may be written without parentheses.
+    pub fn is_argumentless_function(&self) -> bool {
+        #[cfg(all(unix, feature = "users"))]
+        if matches!(
+            self,
+            Function::CurrentUid
+                | Function::CurrentUser
+                | Function::CurrentGid
+                | Function::CurrentGroup
+        ) {
+            return true;
+        }
+
+        matches!(self, Function::CurrentDate | Function::Random)
+    }
+
     /// Check if the function is a boolean function, i.e. it returns a boolean value.
     pub fn is_boolean_function(&self) -> bool {
         #[cfg(unix)]
